@@ -43,11 +43,15 @@ static int ours(const void *p) { return arena && (const char *)p >= arena && (co
 static void *shim_alloc(size_t n, int zero) {
     size_t sz = (n + 15) & ~(size_t)15; if(!sz) sz = 16;
     size_t cls = sz / 16;
-    if(cls < NCLASS && freelist[cls]) {
-        char *p = freelist[cls];
-        freelist[cls] = *(void **)p;                      /* next pointer lives in the first 8 bytes */
+    /* best fit among the recycled chunks of this and the next few size classes: a real allocator splits and coalesces, so a
+     * request is routinely served from a chunk that used to hold something bigger (whose stale data it then exposes) */
+    size_t fit = cls;
+    while(fit < NCLASS && fit < cls + 24 && !freelist[fit]) fit++;
+    if(fit < NCLASS && fit < cls + 24 && freelist[fit]) {
+        char *p = freelist[fit];
+        freelist[fit] = *(void **)p;                      /* next pointer lives in the first 8 bytes */
         struct hdr *h = (struct hdr *)(p - 16);
-        h->size = n;
+        h->size = n;                                      /* (its capacity shrinks to the request: the tail is lost, as after a split) */
         /* what a real allocator leaves behind: two link words that depend on the address space layout */
         uint64_t j0 = (uint64_t)(uintptr_t)arena + (rnd() & 0xfffffff0), j1 = (uint64_t)(uintptr_t)arena + (rnd() & 0xfffffff0);
         memcpy(p, &j0, 8); if(sz >= 16) memcpy(p + 8, &j1, 8);
